@@ -243,6 +243,21 @@ def check(repo):
                     isinstance(a, (ast.FunctionDef, ast.AsyncFunctionDef)) for a in __import__("sa.model", fromlist=["ancestors"]).ancestors(c)):
                 r5.fail(rel, "<module>", c.lineno, "%s at import" % dotted(c.func), "%s seeds the shared generator at import time (%s)" % (rel, short(c)))
     r5.ok({"modules": n_mod})
+    # ---------------------------------------------------------------- R6.6 key-derived placement: the PRP behind SSE-1's addresses is keyed for every width
+    r6 = Rule("R6.6", "SSE-1 places its nodes by a PRP of the counter: the PRP's round function is keyed MAC output of the full requested width (imports R15.4)")
+    rules.append(r6)
+    from . import c15 as _c15
+    for rr in _c15.check(repo):
+        if rr.id != "R15.4":
+            continue
+        r6.obligations += rr.obligations
+        r6.discharged += rr.discharged
+        r6.instances.append({"imported": "R15.4", "obligations": rr.obligations})
+        for f in rr.findings:
+            f.message = ("SSE-1's node addresses are psi_K1(ctr); they move with the key only if the Feistel round function is keyed MAC output of the full "
+                         "requested width for every half width (R15.4): %s" % f.message)
+            f.rule = "R6.6"
+            r6.findings.append(f)
     return rules
 
 
@@ -257,6 +272,12 @@ def _dict_sources(repo, t, depth=0):
         init = t[2]
         if init[0] == "dict" or (init[0] == "call" and init[1] == "dict"):
             return [("raw", "a dict filled by subscript stores")]
+        if init[0] == "call" and is_builder(repo, init[1]):
+            adds = [mk for (mk, subs, a, b, mn) in t[3] if mk in ("setitem", "update", "setdefault", "nested:setitem", "nested:update")]
+            if adds:
+                return [("raw", "the table built in label order by %s, extended afterwards by %s (what is added later is stored behind the sorted entries, in "
+                                "the order in which the keywords were processed)" % (init[1].split("::")[-1], "/".join(sorted(set(adds)))))]
+            return [("builder", init[1].split("::")[-1])]
         for (mk, subs, a, b, mn) in t[3]:
             v = a[0] if mk in ("append", "add") and a else (b if mk == "setitem" else None)
             if isinstance(v, tuple):
